@@ -1434,7 +1434,12 @@ func (fc *FnCtx) checkStructInvEstablished(fr *Frame, st *State, res Val, reach 
 				env := fc.specEnv(st, nil, map[string]Val{si.Self: r}, si.Pkg, nil, "structinv "+si.TypeName)
 				for _, part := range splitConj(si.Clause.Expr) {
 					t := env.evalBool(part)
-					fc.oblige(fr, "structinv", si.TypeName+" established: "+si.Clause.Text, reach, tImp(tAnd(tNot(tEq(r.A.Base, "0")), tSel(fc.alloc(st), r.A.Base)), t), env.quant, nil)
+					guard := tAnd(tNot(tEq(r.A.Base, "0")), tSel(fc.alloc(st), r.A.Base))
+					if fr2, ok := fc.freshReach[r.A.Base]; ok && fr2 != "" {
+						// an object allocated in this call: only on the paths that allocated it
+						guard = tAnd(guard, fr2)
+					}
+					fc.oblige(fr, "structinv", si.TypeName+" established: "+si.Clause.Text, reach, tImp(guard, t), env.quant, nil)
 				}
 			}
 		}
